@@ -266,14 +266,24 @@ Section Resolve.
   Variable known_algs : list Z.
   Variable count_known_algs : Z.
 
-  Definition custom_params (name : string) : list Z :=
-    if String.eqb name "webauthn::FilteredPublicKeyCredentialParameters"
-    then count_known_algs :: known_algs else [].
+  (* capacities of the Vec members of a hand-deserialised struct (the attestation-format preference keeps at most as many
+     known formats as its `known_formats` vector holds) *)
+  Fixpoint vec_caps (l : list rfield) : list Z :=
+    match l with
+    | [] => []
+    | r :: rest => match rf_ty r with TVec _ n => n :: vec_caps rest | _ => vec_caps rest end
+    end.
+
+  Definition custom_params (s : rstruct) : list Z :=
+    if String.eqb (rs_name s) "webauthn::FilteredPublicKeyCredentialParameters"
+    then (* the result vector's own capacity decides how many known algorithms are kept *)
+         match vec_caps (live_fields f (rs_fields s)) with c :: _ => c | [] => count_known_algs end :: known_algs
+    else vec_caps (live_fields f (rs_fields s)).
 
   Definition resolve_struct (s : rstruct) : decl :=
     let cs := customs_of all (rs_name s) in
     if negb (match cs with [] => true | _ => false end) then
-      DCustom (rs_name s) (smem "Serialize" cs) (smem "Deserialize" cs) (custom_params (rs_name s))
+      DCustom (rs_name s) (smem "Serialize" cs) (smem "Deserialize" cs) (custom_params s)
     else
       let fs := live_fields f (rs_fields s) in
       (* a container attribute the model does not interpret (deny_unknown_fields, default, transparent, tag, ...) makes the
